@@ -132,6 +132,9 @@ bool recv_line(NativeSocket socket, std::string& line) {
     line.clear();
     char ch = 0;
     std::size_t count = 0;
+    // A response field (for example the escaped chunk list) may be far longer than a request line;
+    // it is bounded like a response payload instead of by the short request-line limit.
+    const std::size_t line_limit = std::max<std::size_t>(kMaxLineLength, max_control_stream_bytes());
     while (true) {
 #ifdef _WIN32
         const auto received = recv(socket, &ch, 1, 0);
@@ -146,7 +149,7 @@ bool recv_line(NativeSocket socket, std::string& line) {
         }
         if (ch != '\r') {
             line.push_back(ch);
-            if (++count > kMaxLineLength) {
+            if (++count > line_limit) {
                 return false;
             }
         }
